@@ -277,7 +277,9 @@ def iou_values(tracks):
     ncmp = {"skip": 0, "consecutive": 0}
     seg = tracks.segmentation
     ik = iou_key(tracks)
-    if seg is None or ik not in tracks.annotators.features:
+    # "enabled" = listed in the feature registry or active in the annotator (the two agree
+    # on a correct tree; a feature that is listed but silently inactive must not escape)
+    if seg is None or (ik not in tracks.annotators.features and ik not in tracks.features):
         return out, ncmp
     times, edges = graph_view(tracks)
     for u, v in edges:
